@@ -136,6 +136,12 @@ def execute_flow(cfg, schedule=None, rng=None, max_yields=None, keep_dir=False, 
     out_dir = tempfile.mkdtemp(prefix="poolsim-", dir=env.scratch_root())
     sim = Sim(decider, clock, QUARA_DIR, max_yields=max_yields, line_files=LINE_FILE_SETS.get(line_set, ()), out_dir=out_dir,
               probes=stats_p, faults=stats_f, proc_seed=parent_seed + 17, pollution=pollution, mutators=MUTATORS if line_set == "mutators" else None)
+    cwd_before = os.getcwd()
+    if not is_ref and schedule.get("worker_cwd"):
+        # at another depth of the tree than the caller's directory, so that a relative path means something else there
+        sim.worker_cwd = os.path.join(tempfile.mkdtemp(prefix="poolsim-wcwd-", dir=env.scratch_root()), "started", "here")
+        os.makedirs(sim.worker_cwd)
+        os.chdir(tempfile.mkdtemp(prefix="poolsim-pcwd-", dir=env.scratch_root()))
     test_setting = workload.build_test_setting(cfg)
     if not is_ref and schedule.get("stale_dir"):
         # fault kind stale_output_dir: the output directory still holds the files of an earlier run made with other seeds
@@ -148,6 +154,9 @@ def execute_flow(cfg, schedule=None, rng=None, max_yields=None, keep_dir=False, 
     disk = DiskSeam(out_dir, crash_at=(crash or {}).get("at_write"), torn=(crash or {}).get("torn"))
     saved = ProcGlobals.capture()
     ProcGlobals(np_seed=(parent_seed * 2654435761 + 12345) % (2 ** 32), py_seed=parent_seed + 99).install()
+    if cfg.get("parent_atol"):
+        Settings.set_atol(cfg["parent_atol"])  # the caller changed the global tolerance before building its settings
+        test_setting = workload.build_test_setting(cfg)
     res = {"ok": True}
     try:
         with _Patches(sim, clock, disk):
@@ -160,7 +169,7 @@ def execute_flow(cfg, schedule=None, rng=None, max_yields=None, keep_dir=False, 
         res["raw_results"] = results
         res["test_setting"] = test_setting
         res["files"] = oracles.read_output_dir(out_dir)
-        res["globals_after"] = {"atol": Settings.get_atol(), "ineq_eps": pvc.get_ineq_const_eps()}
+        res["globals_after"] = {"atol": Settings.get_atol() if not cfg.get("parent_atol") else 1e-13, "ineq_eps": pvc.get_ineq_const_eps()}
     except SimAbort as e:
         res = {"ok": False, "abort": str(e)}
     except SimCrash as e:
@@ -174,6 +183,12 @@ def execute_flow(cfg, schedule=None, rng=None, max_yields=None, keep_dir=False, 
         res = {"ok": False, "exception": f"{type(e).__name__}: {str(e)[:300]}", "trace": traceback.format_exc()[-1500:]}
     finally:
         saved.install()
+        if os.getcwd() != cwd_before:
+            os.chdir(cwd_before)
+        if sim.worker_cwd:
+            res_stray = [f for _, _, fs in os.walk(os.path.dirname(os.path.dirname(sim.worker_cwd))) for f in fs]
+            if res_stray:
+                stats_p["files_landed_in_a_worker_cwd"] = len(res_stray)
     res["disk_writes"] = disk.writes
     res["disk_written"] = list(disk.written)
     res["out_dir"] = out_dir
@@ -195,6 +210,8 @@ def _clean_schedule(rec):
         out["crash"] = rec["crash"]
     if rec.get("stale_dir"):
         out["stale_dir"] = True
+    if rec.get("worker_cwd"):
+        out["worker_cwd"] = True
     for e in rec.get("proc", []):
         out["proc"].append({k: v for k, v in e.items() if not k.startswith("_")})
     for e in rec.get("threads", []):
@@ -251,9 +268,15 @@ def run_record(record, want_record=True, gen=None):
         stats["steps"] += 1
         log.append(["ref", digest(ref["results"]), digest(ref["files"]["digest_view"])])
         # ---- invariants / history oracles on the reference itself
-        oracles.check_run_internal(cfg, ref, viol, stats, sig_base, which="reference")
-        if not viol:
-            oracles.reestimate_from_dir(cfg, ref, viol, stats, sig_base)
+        atol_saved = Settings.get_atol()
+        try:
+            if cfg.get("parent_atol"):
+                Settings.set_atol(cfg["parent_atol"])  # re-estimation happens in the same session as the run
+            oracles.check_run_internal(cfg, ref, viol, stats, sig_base, which="reference")
+            if not viol:
+                oracles.reestimate_from_dir(cfg, ref, viol, stats, sig_base)
+        finally:
+            Settings.set_atol(atol_saved)
         if not viol:
             oracles.check_noise_models_multi(cfg, rng_for(record.get("seed", 0), "poolsim-multi"), viol, stats, sig_base)
     finally:
@@ -284,7 +307,13 @@ def run_record(record, want_record=True, gen=None):
                 sched_keys.append(digest([run["sim"].events, sched["crash"]]))
                 if "crash" in run:
                     nontrivial = True
-                    oracles.check_after_crash(cfg, ref, run, si, viol, stats, dict(sig_base, levels=oracles.level_signature(cfg)))
+                    atol_saved2 = Settings.get_atol()
+                    try:
+                        if cfg.get("parent_atol"):
+                            Settings.set_atol(cfg["parent_atol"])
+                        oracles.check_after_crash(cfg, ref, run, si, viol, stats, dict(sig_base, levels=oracles.level_signature(cfg)))
+                    finally:
+                        Settings.set_atol(atol_saved2)
                     log.append(["crash", si, run["crash"].split("(")[0], digest(sorted(os.listdir(run["out_dir"])))])
                 elif not run["ok"]:
                     viol.append({"oracle": "H0_parallel_run_fails", "what": f"run under simulated schedule {si} failed: {run.get('exception') or run.get('abort')}", "detail": {"schedule": si}, "signature": dict(sig_base, oracle="H0_parallel_run_fails")})
@@ -356,6 +385,8 @@ def gen_schedule_header(rng, cfg, fault_free, est, si):
 
 
 def _with_disk_faults(rng, cfg, hdr):
+    if rng.random() < 0.2:
+        hdr["worker_cwd"] = True  # the pool's processes were started in another directory than the caller's current one
     cheap = not any(c["estimator"] == "lossmin" and c.get("loss") in ("se", "re") for c in cfg["cases"])
     if rng.random() < 0.12:
         hdr["crash"] = "pending"  # the write index is drawn once the reference has told how many writes a run makes
